@@ -6,8 +6,8 @@ m = json.load(open(os.path.join(root, "tools", "manifest_src.json")))
 units = {'C01': 'channel_holder, enforcement, channel_build, handler_holder, handler_cp', 'C02': 'channel_holder, channel_close, sv_commit, enforcement, handler_holder, handler_cp',
          'C03': 'enforcement, secrets, channel_cp, sv_commit, handler_cp', 'C04': 'channel_cp, channel_holder, channel_build, handler_setup, tx_decoder, handler_cp', 'C05': 'sv_commit, sv_setup, policy_filter, node_restore_channels, handler_setup, handler_cp',
          'C06': 'pay_summary, node_payments, sv_commit, payments, enforcement, handler_cp', 'C07': 'sv_close, channel_close, handler_cp',
-         'C08': 'sv_onchain, sv_commit', 'C09': 'sv_sweep, channel_sweep, wallet, handler_setup',
-         'C10': 'all channel units, enforcement, secrets, tracker, velocity, kvv_*, node_payments, node_allowlist, node_allowlist_remove, node_allowlist_frame',
+         'C08': 'sv_onchain, sv_commit', 'C09': 'sv_sweep, channel_sweep, wallet, handler_setup, handler_sweep',
+         'C10': 'all channel units, enforcement, secrets, tracker, velocity, kvv_*, node_payments, node_allowlist, node_allowlist_remove, node_allowlist_frame, handler_cp',
          'C11': 'channel_*, node_restore, node_restore_channels, node_ids, node_payments, node_allowlist, node_allowlist_remove, persist_*, handler_blocks',
          'C12': 'velocity, velocity_window, node_restore, node_payments, persist_node_state, approver_velocity', 'C13': 'tracker, tracker_watches, oracle, handler_blocks', 'C14': 'monitor_changes',
          'C15': 'monitor_done, monitor_changes, node_ids, node_restore, node_restore_channels',
